@@ -622,3 +622,46 @@ Section Ingest.
     unfold message_of in Hdec. rewrite Hdec. apply sentence_decode_view. now rewrite Hvn, view_attach.
   Qed.
 End Ingest.
+
+(* ================================================================ both loops, one statement *)
+
+Definition reader_loop (step : asm_stepfn) : Prop := step = stream_step \/ step = queue_step.
+
+Lemma reader_loop_is_reader_loop : forall step, reader_loop step -> is_reader_loop step.
+Proof. intros step [-> | ->]; [exact stream_is_reader_loop|exact queue_is_reader_loop]. Qed.
+
+(* C07, last clause.  For the generator of AssembleMessages (IterMessages, ByteStream, BinaryIOStream, FileReaderStream,
+   SocketStream) and for NMEAQueue.put_line, with or without a tag block queue:
+   (1) parts = the lines of one complete message (not a single-sentence message), ls = any line sequence in which the
+       lines storing into the message's slot are exactly the parts in some order: the reader consumes all of ls, delivers
+       at the message's lines exactly one sentence d, d carries the message (view = msg_view: raw text joined by LF in
+       fragment order, payload, bits, validity, message id; sequence id, channel), and for EVERY order parts' of the parts
+       decode( *parts' ) assembles a sentence with the same view and returns what d.decode() returns (same message or same
+       exception);
+   (2) p = the line of a single-sentence message, anywhere in any line sequence: delivered at that line, same agreement
+       with decode(p). *)
+Theorem decode_agrees : forall uni step use_tbq, reader_loop step ->
+  (forall parts fs sq ch ls,
+     Forall2 line_ais parts fs -> complete_message sq ch fs -> msg_single sq fs = false ->
+     (use_tbq = true -> Forall (tbq_accepts uni) fs) ->
+     Permutation parts (filter (line_touches (msg_slot sq ch)) ls) ->
+     exists outs st d,
+       rd_run uni step use_tbq rd_init ls = (outs, Ok st) /\ length outs = length ls /\
+       pick (map (line_touches (msg_slot sq ch)) ls) (map fst outs) = [d] /\
+       view d = msg_view fs /\ a_seq_id d = sq /\ a_channel d = ch /\
+       forall parts', Permutation parts parts' ->
+         exists nmea, assemble_messages false parts' = Ok nmea /\ view nmea = view d /\
+                      sentence_decode d = mmap snd (decode_api false parts')) /\
+  (forall p f pre post,
+     line_ais p f -> is_single f = true -> (use_tbq = true -> tbq_accepts uni f) ->
+     exists outs1 outs2 st touts d,
+       rd_run uni step use_tbq rd_init (pre ++ p :: post) = (outs1 ++ ([d], touts) :: outs2, Ok st) /\
+       length outs1 = length pre /\ length outs2 = length post /\
+       view d = view f /\ a_seq_id d = a_seq_id f /\ a_channel d = a_channel f /\
+       exists nmea, assemble_messages false [p] = Ok nmea /\ view nmea = view d /\
+                    sentence_decode d = mmap snd (decode_api false [p])).
+Proof.
+  intros uni step use_tbq Hl. apply reader_loop_is_reader_loop in Hl. split.
+  - intros parts fs sq ch ls. exact (decode_agrees_message uni step use_tbq parts fs sq ch ls Hl).
+  - intros p f pre post. exact (decode_agrees_single uni step use_tbq p f pre post Hl).
+Qed.
